@@ -1,8 +1,30 @@
 """Table from which gen_manifest.py writes MANIFEST.json."""
 HOOK_COMMITS = []
-NOTES = ("Technique family: deterministic simulation with fault injection. 8 properties are decided by simulation, "
-         "12 are pure functions of their input and are listed under not_applicable (DESIGN.md §2).")
-ENGINES = []
-CHECKS = {}
-PENDING = {k: "check under construction (planned engine, see DESIGN.md §5); not claimed until it runs" for k in
-           ["C03", "C04", "C05", "C06", "C10", "C14", "C15", "C18"]}
+NOTES = ("Technique family: deterministic simulation with fault injection. 8 properties are decided by simulation "
+         "(seeded operation-and-fault histories against reference models; seeded thread schedules and asynchronous faults for the "
+         "module-level memo tables), 12 are pure functions of their input and are listed under not_applicable (DESIGN.md section 2). "
+         "Genuine defects found and repaired are listed in known_findings.json ('fixed'); unrepaired ones under 'findings'.")
+ENGINES = [
+    {"name": "kv", "path": "sim/eng_kv.py", "serves_properties": ["C03", "C18"],
+     "kind_free_text": "pool of KnotVector objects; seeded open-loop plans with relative selectors; scripted RNG; SimScalar / failing-iterable faults; exact knot-vector model"},
+    {"name": "memo", "path": "sim/eng_memo.py", "serves_properties": ["C10"],
+     "kind_free_text": "module-level quadrature memo tables under 1-3 simulated caller threads (baton passing, sys.settrace line-level seeded scheduler) with asynchronous faults; cold-answer and exact-moment oracles"},
+    {"name": "ref", "path": "sim/eng_ref.py", "serves_properties": ["C04", "C05", "C06", "C14"],
+     "kind_free_text": "Curve objects refined step by step against an exact B-spline model (Cox-de Boor, piecewise-polynomial form, minimal representation); invalid-request faults; undo steps"},
+    {"name": "curve", "path": "sim/eng_curve.py", "serves_properties": ["C15"],
+     "kind_free_text": "world of 1-4 Curve objects with seeded aliasing layouts and simulated point types (value-seam faults); consistency / atomicity / non-interference oracles"},
+]
+_NOTE = ("Sampling, not proof. Trusted base: the exact reference model /verif/sim/model.py (own self-test), the plan executor, "
+         "CPython + numpy. All of compmec.nurbs runs as shipped from /repo/src; only the environment side of the seams is stubbed.")
+CHECKS = {
+    "C03": {"engine": "kv", "technique": "deterministic simulation: seeded operation-and-fault histories on KnotVector objects vs exact reference model, with shrinking and replay",
+            "ref": "DESIGN.md section 5 (C03), section 3",
+            "text": "Seeded search over finite histories of public KnotVector operations (valid and invalid requests, value-seam and iterable faults, copies and aliases); after every step every vector in the world is checked for well-formedness and query agreement against an exact element-list model, every refusal for the stated exception type and for atomicity, every other object for non-interference. Exploration-level: strong evidence on the sampled histories, no exhaustiveness.",
+            "note": _NOTE},
+    "C18": {"engine": "kv", "technique": "deterministic simulation: scripted/seeded RNG seam for random(), shift/scale/normalize as checked state transitions",
+            "ref": "DESIGN.md section 5 (C18)",
+            "text": "The only randomness source of the package (numpy.random.randint inside GeneratorKnotVector.random) is put behind a scripted seam that feeds adversarial and uniform draw vectors; generator postconditions and the affine maps are judged as transitions inside seeded histories (exact image of every knot, multiplicities kept, normalize onto exactly [0,1], refusal atomicity).",
+            "note": _NOTE},
+}
+PENDING = {k: "check under construction (planned engine, see DESIGN.md section 5); not claimed until it runs" for k in
+           ["C04", "C05", "C06", "C10", "C14", "C15"]}
